@@ -130,6 +130,8 @@ public:
     D["static"] = VD->isStaticLocal() || VD->getStorageClass() == SC_Static;
     D["extern"] = VD->hasExternalStorage();
     D["const"] = VD->getType().isConstQualified();
+    if (VD->getTLSKind() != VarDecl::TLS_None)
+      D["tls"] = true;
     if (const auto *CA = VD->getAttr<CleanupAttr>())
       D["cleanup"] = CA->getFunctionDecl()->getNameAsString();
     if (const auto *AT = Ctx.getAsConstantArrayType(VD->getType())) {
